@@ -75,7 +75,9 @@ def grammar_files():
 
 
 def prepare_roots():
-    """Three manifest roots holding identical copies of the grammar files (relocation of the grammar file)."""
+    """Three manifest roots holding identical copies of the grammar files (relocation of the grammar file). The copies differ in
+    file-system metadata only: root0 ordinary files; root1 read-only files with a modification time in 2001; root2 symbolic
+    links into a store directory whose files carry a modification time in 2033."""
     good, bad = grammar_files()
     base = os.path.join(C.build_root(), "gensim-roots")
     roots = []
@@ -85,8 +87,24 @@ def prepare_roots():
         for name, path in list(good.items()) + list(bad.items()):
             dst = os.path.join(root, "grammars", name + ".pest")
             data = open(path, "rb").read()
-            if not os.path.exists(dst) or open(dst, "rb").read() != data:
-                open(dst, "wb").write(data)
+            target = dst
+            if k == 2:
+                store = os.path.join(base, "store")
+                os.makedirs(store, exist_ok=True)
+                target = os.path.join(store, name + ".pest")
+                if not os.path.islink(dst) or os.readlink(dst) != target:
+                    if os.path.lexists(dst):
+                        os.unlink(dst)
+                    os.symlink(target, dst)
+            if not os.path.exists(target) or open(target, "rb").read() != data:
+                if os.path.exists(target):
+                    os.chmod(target, 0o644)
+                open(target, "wb").write(data)
+            if k == 1:
+                os.utime(target, (1_000_000_000, 1_000_000_000))
+                os.chmod(target, 0o444)
+            elif k == 2:
+                os.utime(target, (2_000_000_000, 2_000_000_000))
         roots.append(root)
     texts = {name: open(path, encoding="utf-8").read() for name, path in list(good.items()) + list(bad.items())}
     return roots, texts, sorted(good), sorted(bad)
@@ -104,7 +122,7 @@ WELL_KNOWN_VARS = {
 }
 
 NEUTRAL_ENV = {"shim_seed": 0, "clock_base": 1700000000, "clock_step": 1000, "junk_env": 0, "junk_size": 0, "cwd": "root0", "root": 0,
-               "read_short": 0, "read_eintr": 0, "stderr": "pipe", "well_known": {}}
+               "read_short": 0, "read_eintr": 0, "stderr": "pipe", "well_known": {}, "pid": 4242, "ncpu": 8}
 
 
 def text_of(texts, name):
@@ -142,6 +160,10 @@ def gen_run(seed, goods, bads, texts):
         env["junk_env"] = rng.below(40)
         env["junk_size"] = 1 + rng.below(300)
     env["well_known"] = {}
+    if rng.chance(1, 2):
+        env["pid"] = 2 + rng.below(4_000_000)
+    if rng.chance(1, 2):
+        env["ncpu"] = rng.pick([1, 2, 3, 16, 64, 192])
     if rng.chance(2, 3):
         names = sorted(WELL_KNOWN_VARS)
         for _ in range(1 + rng.below(12)):
@@ -181,7 +203,7 @@ def gen_run(seed, goods, bads, texts):
 def process_env(env, roots, shim, log):
     e = {"PATH": "/usr/bin:/bin", "LD_PRELOAD": shim, "ENVSHIM_SEED": str(env["shim_seed"]), "ENVSHIM_CLOCK_BASE": str(env["clock_base"]),
          "ENVSHIM_CLOCK_STEP": str(env["clock_step"]), "ENVSHIM_READ_SHORT": str(env["read_short"]), "ENVSHIM_READ_EINTR": str(env["read_eintr"]),
-         "ENVSHIM_LOG": log, "CARGO_MANIFEST_DIR": roots[env["root"]]}
+         "ENVSHIM_LOG": log, "CARGO_MANIFEST_DIR": roots[env["root"]], "ENVSHIM_PID": str(env.get("pid", 4242)), "ENVSHIM_NCPU": str(env.get("ncpu", 8))}
     for i in range(env["junk_env"]):
         e["JUNK_%03d" % i] = "x" * env["junk_size"]
     for k, v in sorted(env.get("well_known", {}).items()):
@@ -394,7 +416,7 @@ def run(tier, seed):
     failing = {}
     counters_total = {}
     env_kinds = {"hash_seed_varied": 0, "clock_varied": 0, "junk_environment": 0, "manifest_root_relocated": 0, "cwd_changed": 0,
-                 "well_known_variables_set": 0, "read_short_configured": 0, "read_eintr_configured": 0, "stderr_is_full_disk": 0, "stderr_is_devnull": 0, "heap_ballast": 0, "non_main_thread_steps": 0, "fresh_thread_steps": 0,
+                 "well_known_variables_set": 0, "read_short_configured": 0, "read_eintr_configured": 0, "stderr_is_full_disk": 0, "stderr_is_devnull": 0, "pid_varied": 0, "cpu_count_varied": 0, "heap_ballast": 0, "non_main_thread_steps": 0, "fresh_thread_steps": 0,
                  "panicking_expansions": 0, "steps_after_a_panicking_expansion": 0, "repeated_expansions_in_one_process": 0,
                  "generated_grammar_expansions": 0, "generated_grammar_expansions_accepted": 0}
     distinct = set()
@@ -426,6 +448,8 @@ def run(tier, seed):
             env_kinds["clock_varied"] += e["clock_base"] != NEUTRAL_ENV["clock_base"] or e["clock_step"] != NEUTRAL_ENV["clock_step"]
             env_kinds["junk_environment"] += e["junk_env"] > 0
             env_kinds["well_known_variables_set"] += len(e["well_known"])
+            env_kinds["pid_varied"] += e["pid"] != NEUTRAL_ENV["pid"]
+            env_kinds["cpu_count_varied"] += e["ncpu"] != NEUTRAL_ENV["ncpu"]
             env_kinds["manifest_root_relocated"] += e["root"] != 0
             env_kinds["cwd_changed"] += e["cwd"] != "root0"
             env_kinds["read_short_configured"] += e["read_short"] > 0
